@@ -118,3 +118,24 @@ Qed.
 Lemma root_head_loop_stmt ast0 :
   has_return ast0 = false -> type_of ast0 = TNone -> head_loop (root_ast ast0) = false.
 Proof. intros H T. unfold root_ast. rewrite H, T. reflexivity. Qed.
+
+(* the body compileSubroutine builds for a subroutine declaration is a Seq: never loop-headed *)
+Lemma decl_body_root_head_loop o r : head_loop (root_ast (decl_body o r)) = false.
+Proof. apply root_head_loop. unfold decl_body. destruct (o_use_fp o); reflexivity. Qed.
+
+(* the end-to-end theorem for a subroutine as compile_rec compiles it (no deferred expression, i.e. not
+   an ABI-returning subroutine): no side condition left *)
+Theorem subroutine_end_to_end o r cr order code :
+  r_deferred r = None ->
+  compile_one o (Some r) (decl_body o r) = COk cr ->
+  sort_blocks (cr_graph cr) (cr_start cr) (cr_end cr) = Some order ->
+  flatten_blocks (cr_graph cr) order = Some code ->
+  pos_of (cr_graph cr) order (cr_start cr) = 0 /\
+  forall env, consistent env (routine_ctx o (Some r)) ->
+  forall fuel stk st h, halt_of (denote env fuel (root_ast (decl_body o r)) stk st) = Some h ->
+    lstar env code (LAt 0 stk st) h /\
+    forall c2, lstar env code (LAt 0 stk st) c2 -> lfinal c2 = true -> c2 = h.
+Proof.
+  intros D E HS HF.
+  exact (routine_end_to_end o (Some r) (decl_body o r) cr order code D E (decl_body_root_head_loop o r) HS HF).
+Qed.
